@@ -165,10 +165,17 @@ def gen_random(rng):
         return G.gen_table_spec(rng, nrows=(120, 400), ncols=(1, 14), nrow=rng.choice([None, 66, 100, 130, 7]),
                                 convert=convert, attrs_p=0.05, maxruns=rng.choice([4, 12, 40]))
     if rng.random() < 0.85:
-        return G.gen_table_spec(rng, nrows=rng.choice([(0, 4), (1, 20), (10, 50)]), ncols=(1, 7), nrow=nrow,
+        spec = G.gen_table_spec(rng, nrows=rng.choice([(0, 4), (1, 20), (10, 50)]), ncols=(1, 7), nrow=nrow,
                                 convert=convert, attrs_p=0.08, long_p=rng.choice([0, 0, 0.1, 0.3]),
                                 attr_names=["text_font", "text_font_size", "text_format", "text_justification",
                                             "border_top", "border_bottom", "cell_height"])
+        if not convert and rng.random() < 0.3:
+            # the very same string once with conversion on (title, rendered first) and once with it off (cell)
+            cands = [v for c in spec["df"]["cols"] if c["dtype"] == "str" for v in c["values"]
+                     if isinstance(v, str) and any(t in v for t in ("^", "_", ">=", "<="))]
+            if cands:
+                spec["title"] = {"text": rng.choice(cands), "text_convert": True}
+        return spec
     return G.gen_multi_spec(rng, convert=convert, nrow=nrow, attrs_p=0.05, nrows=(0, 14),
                             long_p=rng.choice([0, 0.1]))
 
